@@ -130,6 +130,7 @@ func (e *tlEngine) analyse(f *ssa.Function, ctx map[int]bool, ctxS string) {
 	t.collectA2()
 	t.collectA3()
 	t.collectMutTab()
+	t.collectF3()
 	t.extractSummary()
 	k := e.sumKey(f, ctxS)
 	if old := e.sums[k]; old == nil || old.sig() != sum.sig() || !old.done {
